@@ -1132,3 +1132,229 @@ Proof.
       * rewrite (equal_graphs_same_path_set _ _ E) in H. cbn in H. destruct H.
       * cbn in H. destruct H.
 Qed.
+
+(* ================================================================== Part 9: which traits a pattern hooks *)
+Lemma flat_map_nil_fun {A B} (f : A -> list B) l : (forall x, f x = []) -> flat_map f l = [].
+Proof. intros H. induction l as [|x l IH]; [reflexivity|]. cbn. now rewrite H, IH. Qed.
+
+Lemma hook_path_single h o n :
+  hook_path h o [n] =
+  let '(obs, errs) := observables n o (nth_obj h o) in
+  errs ++ (if node_notify n then map (fun x => Hit o (fst x)) obs else []).
+Proof.
+  cbn [hook_path]. destruct (observables n o (nth_obj h o)) as [obs errs].
+  rewrite flat_map_nil_fun; [now rewrite app_nil_r|]. intros x. now apply flat_map_nil_fun.
+Qed.
+
+(* the walk over a graph reaches exactly what the walks along its paths reach *)
+Lemma hook_graph_paths h g : forall o x,
+  In x (hook_graph h o g) <-> exists p, In p (graph_paths g) /\ In x (hook_path h o p).
+Proof.
+  induction g as [n cs IH] using graph_ind'. intros o x. rewrite Forall_forall in IH.
+  destruct cs as [|c cs].
+  - cbn [graph_paths hook_graph flat_map]. pose proof (hook_path_single h o n) as HS.
+    destruct (observables n o (nth_obj h o)) as [obs errs] eqn:E. cbn zeta in HS. rewrite app_nil_r.
+    split.
+    + intros Hx. exists [n]. split; [now left|]. now rewrite HS.
+    + intros (p & [<-|[]] & Hx). now rewrite HS in Hx.
+  - rewrite gp_cons. cbn [hook_graph].
+    destruct (observables n o (nth_obj h o)) as [obs errs] eqn:E.
+    split.
+    + intros Hx. apply in_app_or in Hx. destruct Hx as [Hx|Hx]; [|apply in_app_or in Hx; destruct Hx as [Hx|Hx]].
+      * destruct (flat_map graph_paths (c :: cs)) as [|p0 ps] eqn:Ep; [now apply flat_gp_nil in Ep|].
+        exists (n :: p0). split; [now left|]. cbn [hook_path]. rewrite E. apply in_or_app. now left.
+      * destruct (flat_map graph_paths (c :: cs)) as [|p0 ps] eqn:Ep; [now apply flat_gp_nil in Ep|].
+        exists (n :: p0). split; [now left|]. cbn [hook_path]. rewrite E. apply in_or_app. right.
+        apply in_or_app. now left.
+      * apply in_flat_map in Hx. destruct Hx as (c' & Hc' & Hx). apply in_flat_map in Hx.
+        destruct Hx as (it & Hit & Hx). apply in_flat_map in Hx. destruct Hx as (o' & Ho' & Hx).
+        apply (IH c' Hc') in Hx. destruct Hx as (p & Hp & Hx).
+        exists (n :: p). split.
+        -- apply in_map. apply in_flat_map. now exists c'.
+        -- cbn [hook_path]. rewrite E. apply in_or_app. right. apply in_or_app. right.
+           apply in_flat_map. exists it. split; [exact Hit|]. apply in_flat_map. now exists o'.
+    + intros (p & Hp & Hx). apply in_map_iff in Hp. destruct Hp as (p' & <- & Hp').
+      cbn [hook_path] in Hx. rewrite E in Hx.
+      apply in_app_or in Hx. destruct Hx as [Hx|Hx]; [apply in_or_app; now left|].
+      apply in_app_or in Hx. destruct Hx as [Hx|Hx]; [apply in_or_app; right; apply in_or_app; now left|].
+      apply in_or_app. right. apply in_or_app. right.
+      apply in_flat_map in Hx. destruct Hx as (it & Hit & Hx). apply in_flat_map in Hx. destruct Hx as (o' & Ho' & Hx).
+      apply in_flat_map in Hp'. destruct Hp' as (c' & Hc' & Hp').
+      apply in_flat_map. exists c'. split; [exact Hc'|]. apply in_flat_map. exists it. split; [exact Hit|].
+      apply in_flat_map. exists o'. split; [exact Ho'|]. apply (IH c' Hc'). now exists p'.
+Qed.
+
+Lemma filter_true {A} (l : list A) : filter (fun _ => true) l = l.
+Proof. induction l as [|x l IH]; [reflexivity|]. cbn. now rewrite IH. Qed.
+
+(* element by element, the observer the parser builds matches what the manual says the element matches *)
+Lemma observables_node_of ml o ob : observables (node_of ml) o ob = m_obs (fst ml) o ob.
+Proof.
+  destruct ml as [m l].
+  destruct m as [w| | | | |w| ]; destruct ob as [ts|items|vals|items];
+    cbn [node_of fst snd observables m_obs unless filter_ok]; try reflexivity.
+  all: try (match goal with |- context [find_trait ?a ?b] => destruct (find_trait a b); reflexivity end).
+  all: try (unfold filter_ok; now rewrite filter_true).
+Qed.
+Lemma notify_node_of ml : node_notify (node_of ml) = notify_of (snd ml).
+Proof. destruct ml as [m l]. destruct m; reflexivity. Qed.
+
+Lemma hook_path_node_of h p : forall o, hook_path h o (map node_of p) = hook_mpath h o p.
+Proof.
+  induction p as [|ml p IH]; intros o; [reflexivity|].
+  cbn [map hook_path hook_mpath]. rewrite observables_node_of, notify_node_of.
+  destruct (m_obs (fst ml) o (nth_obj h o)) as [obs errs]. f_equal. f_equal.
+  apply flat_map_ext. intros it. apply flat_map_ext. intros o'. apply IH.
+Qed.
+
+(* on every heap, from every object: the handler ends up on exactly the traits / containers the documented meaning
+   names (and observe raises exactly when the documented meaning meets an error) *)
+Lemma hooks_meaning_lemma t gs : compile_tree t = Graphs gs ->
+  forall h o x, In x (flat_map (hook_graph h o) gs) <-> In x (doc_hooks h o t).
+Proof.
+  intros Hc h o x. pose proof (meaning_lemma _ _ Hc) as HM. unfold doc_paths, doc_paths_l in HM.
+  unfold doc_hooks. rewrite !in_flat_map. split.
+  - intros (g & Hg & Hx). apply hook_graph_paths in Hx. destruct Hx as (p & Hp & Hx).
+    assert (In p (flat_map graph_paths gs)) as Hin by (apply in_flat_map; now exists g).
+    rewrite HM in Hin. apply in_map_iff in Hin. destruct Hin as (q & <- & Hq).
+    exists q. split; [exact Hq|]. now rewrite <- hook_path_node_of.
+  - intros (q & Hq & Hx). rewrite <- hook_path_node_of in Hx.
+    assert (In (map node_of q) (flat_map graph_paths gs)) as Hin by (rewrite HM; now apply in_map).
+    apply in_flat_map in Hin. destruct Hin as (g & Hg & Hp). exists g. split; [exact Hg|].
+    apply hook_graph_paths. now exists (map node_of q).
+Qed.
+
+(* "+name" hooks a trait iff its metadata value is not None - falsy values included *)
+Lemma metadata_hooks_iff_not_none w ts x :
+  In x (fst (m_obs (MMeta w) 0 (OTraits ts))) <->
+  exists t, In t ts /\ meta_of (t_meta t) w <> MVNone /\ x = trait_item t.
+Proof.
+  cbn. rewrite in_map_iff. split.
+  - intros (t & <- & Ht). apply filter_In in Ht. destruct Ht as [H1 H2]. exists t. repeat split; auto.
+    intros E. rewrite E in H2. discriminate.
+  - intros (t & H1 & H2 & ->). exists t. split; [reflexivity|]. apply filter_In. split; [exact H1|].
+    destruct (meta_of (t_meta t) w); [contradiction|reflexivity|reflexivity].
+Qed.
+
+(* "items" is four-way at run time: on a list / dict / set it is the container and its items (values), on a HasTraits
+   object the trait named items if there is one, and never an error *)
+Lemma flat_map_const_nil {A B} (l : list A) : flat_map (fun _ : A => @nil B) l = [].
+Proof. now apply flat_map_nil_fun. Qed.
+
+Lemma items_runtime h o l :
+  let ob := nth_obj h o in
+  flat_map (hook_mpath h o) (raw_paths TItems l) =
+  match ob with
+  | OTraits ts => match find_trait ts items_word with
+                  | Some t => if notify_of l then [Hit o (t_name t)] else []
+                  | None => [] end
+  | _ => if notify_of l then [Hit o []] else []
+  end.
+Proof.
+  cbn zeta. cbn [raw_paths flat_map hook_mpath fst snd]. destruct (nth_obj h o) as [ts|items|vals|items]; cbn [m_obs].
+  - destruct (find_trait ts items_word) as [t|]; destruct (notify_of l); cbn; rewrite ?flat_map_const_nil; reflexivity.
+  - destruct (notify_of l); cbn; rewrite ?flat_map_const_nil; reflexivity.
+  - destruct (notify_of l); cbn; rewrite ?flat_map_const_nil; reflexivity.
+  - destruct (notify_of l); cbn; rewrite ?flat_map_const_nil; reflexivity.
+Qed.
+
+(* ================================================================== Part 10: brackets at the text level, both languages *)
+Lemma flush_app cur ts x : flush cur ts ++ x = flush cur (ts ++ x).
+Proof. destruct cur; reflexivity. Qed.
+
+Lemma lex_rbr_end s : forall cur, lex_go cur (s ++ [CRbr]) = option_map (fun ts => ts ++ [RBR]) (lex_go cur s).
+Proof.
+  induction s as [|x s IH]; intros cur.
+  - cbn. now rewrite flush_app.
+  - destruct x; cbn [app lex_go sym_of]; rewrite ?IH; try reflexivity;
+      try (destruct (lex_go None s); cbn; [now rewrite flush_app|reflexivity]).
+    destruct cur; [apply IH|reflexivity].
+Qed.
+
+Lemma lex_brackets s ts : lex s = Some ts -> lex (CLbr :: s ++ [CRbr]) = Some (LBR :: ts ++ [RBR]).
+Proof. unfold lex. intros H. cbn [lex_go sym_of]. now rewrite lex_rbr_end, H. Qed.
+
+(* in the documented language brackets never matter; in the parser's language they do not matter around a "*"-free text *)
+Lemma doc_brackets_same_tree ts t : parse_toks_gen true ts = Some t -> parse_toks_gen true (LBR :: ts ++ [RBR]) = Some t.
+Proof.
+  intros H. apply parse_toks_gen_sound in H. apply parse_toks_gen_complete. now apply Dp_one, Ds_one, De_br.
+Qed.
+
+Lemma brackets_text s t : parse s = Some t -> has_any t = false -> compile_str (CLbr :: s ++ [CRbr]) = compile_str s.
+Proof.
+  unfold compile_str, parse. destruct (lex s) as [ts|] eqn:E; [|discriminate]. intros H Ha.
+  rewrite (lex_brackets _ _ E), (brackets_same_tree _ _ H Ha), H. reflexivity.
+Qed.
+
+Lemma doc_brackets_text s ts t : doc_parse s = Some (ts, t) -> doc_parse (CLbr :: s ++ [CRbr]) = Some (LBR :: ts ++ [RBR], t).
+Proof.
+  unfold doc_parse. destruct (lex s) as [ts'|] eqn:E; [|discriminate].
+  destruct (parse_toks_gen true ts') as [t'|] eqn:Ep; [|discriminate]. intros H. inversion H; subst.
+  now rewrite (lex_brackets _ _ E), (doc_brackets_same_tree _ _ Ep).
+Qed.
+
+(* whitespace rewrites do not leave the documented language either: doc_parse depends on the text through lex only *)
+Lemma doc_parse_lex s1 s2 : lex s1 = lex s2 -> doc_parse s1 = doc_parse s2.
+Proof. unfold doc_parse. now intros ->. Qed.
+
+Lemma whitespace_doc_lemma :
+  (forall pre x r, is_symb x = true -> doc_parse (pre ++ CWs :: x :: r) = doc_parse (pre ++ x :: r)) /\
+  (forall pre x r, is_symb x = true -> doc_parse (pre ++ x :: CWs :: r) = doc_parse (pre ++ x :: r)) /\
+  (forall pre r, doc_parse (pre ++ CWs :: CWs :: r) = doc_parse (pre ++ CWs :: r)) /\
+  (forall s, doc_parse (CWs :: s) = doc_parse s) /\
+  (forall s, doc_parse (s ++ [CWs]) = doc_parse s).
+Proof.
+  repeat split; intros; apply doc_parse_lex; unfold lex.
+  - apply lex_context. intros cur. now apply lex_ws_sym.
+  - apply lex_context. intros cur. now apply lex_sym_ws.
+  - apply lex_context. intros cur. apply lex_ws_ws.
+  - cbn [lex_go]. apply flush_none_id.
+  - apply lex_ws_end.
+Qed.
+
+(* ================================================================== the hook law on the model *)
+Lemma in_hit_codes c l : In c (hit_codes l) <-> exists x, In x l /\ hit_code x = Some c.
+Proof.
+  induction l as [|x l IH]; cbn [hit_codes].
+  - split; [intros []|intros (x & [] & _)].
+  - destruct (hit_code x) as [d|] eqn:E.
+    + split.
+      * intros [<-|H]; [exists x; split; [now left|exact E]|].
+        apply IH in H. destruct H as (y & Hy & Ey). exists y. split; [now right|exact Ey].
+      * intros (y & [<-|Hy] & Ey); [left; congruence|]. right. apply IH. now exists y.
+    + rewrite IH. split; intros (y & Hy & Ey); exists y; (split; [|exact Ey]).
+      * now right.
+      * destruct Hy as [<-|Hy]; [congruence|exact Hy].
+Qed.
+
+Lemma has_err_ext a b : (forall x, In x a <-> In x b) -> has_err a = has_err b.
+Proof.
+  intros H. unfold has_err. destruct (existsb _ a) eqn:Ea; symmetry.
+  - apply existsb_exists in Ea. destruct Ea as (x & Hx & Ex). apply existsb_exists. exists x. split; [now apply H|exact Ex].
+  - destruct (existsb _ b) eqn:Eb; [|reflexivity]. apply existsb_exists in Eb. destruct Eb as (x & Hx & Ex).
+    assert (existsb (fun x0 : hit => match x0 with Hit _ _ => false | Err _ _ => true end) a = true) as C
+      by (apply existsb_exists; exists x; split; [now apply H|exact Ex]). congruence.
+Qed.
+
+Lemma zsubset_codes a b : (forall x, In x a -> In x b) -> zsubset (hit_codes a) (hit_codes b) = true.
+Proof.
+  intros H. apply forallb_forall. intros c Hc. apply in_hit_codes in Hc. destruct Hc as (x & Hx & Ex).
+  apply existsb_exists. exists c. split; [|apply Z.eqb_refl]. apply in_hit_codes. exists x. split; [now apply H|exact Ex].
+Qed.
+
+(* for every text the model compiles, the end-to-end hook law (clauses 16, 17) holds of the model's own walk *)
+Lemma model_hook_law s gs : compile_str s = Graphs gs ->
+  let hits := flat_map (hook_graph probe_heap 0) gs in
+  law_hook s (negb (has_err hits)) (hit_codes hits) = [].
+Proof.
+  intros Hc hits. unfold law_hook.
+  unfold compile_str in Hc. destruct (parse s) as [t|] eqn:Ep; [|discriminate].
+  pose proof Ep as Ep'. apply parse_iff in Ep'. destruct Ep' as (ts & Hl & HD). apply lark_subset_doc in HD.
+  assert (doc_parse s = Some (ts, t)) as -> by (apply doc_parse_iff; now split).
+  pose proof (hooks_meaning_lemma _ _ Hc probe_heap 0) as HM. fold hits in HM.
+  rewrite <- (has_err_ext _ _ HM). destruct (has_err hits) eqn:Eh; cbn [negb].
+  - reflexivity.
+  - cbn [chk app]. unfold zset_eqb.
+    rewrite (zsubset_codes (doc_hooks probe_heap 0 t) hits) by (intros x Hx; now apply HM).
+    rewrite (zsubset_codes hits (doc_hooks probe_heap 0 t)) by (intros x Hx; now apply HM). reflexivity.
+Qed.
